@@ -167,33 +167,13 @@ def run(ck):
               "popped from %s" % sorted({f.name for f, _ in sites}))
         for f, e in sites:
             # allowed callers of the consumer function
-            callers = {x.func.base for x in prog.call_sites(f.base)}
+            callers = {prog.owner(x.func).base for x in prog.call_sites(f.base)}
             allowed = {owner + "::onReady", owner + "::flush", f.base}
             extra = callers - allowed
             ck.ob("C13-R4", "consumer-callers:" + f.base, not extra, f.loc, f, "called from %s" % sorted(callers))
             # R3: loop until null
-            decl = [d for d in f.events("decl") if d.block == e.block and d.idx > e.idx and strip_tmpl(d.get("icall") or "").endswith("::popSafe")]
-            if e.base_callee() != "Pistache::Queue::popSafe" or not decl:
-                ck.ob("C13-R3", "drain-loop:" + f.base, False, e.loc, f, "consumer does not bind the popSafe result to a local")
-                continue
-            var = decl[0]["var"]
-            in_loop = any(x is e for x in cfg.events_after(f, e))
-            null_edges = set()
-            for b in f.blocks.values():
-                t = b.term
-                if t and t.get("k") == "if" and (t.get("core") or {}).get("root") == var and not t.get("cmp"):
-                    null_edges.add((b.id, 0 if t.get("neg") else 1))
-            took = []
-
-            def edge2(st, blk, k, succ):
-                if (blk.id, k) in null_edges:
-                    return "null"
-                return st
-            exits, _ = cfg.run_automaton(f, "live", lambda s, ev: s, edge=edge2, start=e.block, start_idx=e.idx + 1)
-            bad = [x for x in exits if x.kind != "throw" and x.state != "null"]
-            ck.ob("C13-R3", "drain-loop:" + f.base, in_loop and null_edges and not bad, e.loc, f,
-                  "popSafe in a loop; every normal exit goes through the `!%s` arm" % var if (in_loop and not bad) else
-                  ("consumer can stop draining with items left: exit at block %s without the null test" % (bad[0].block if bad else "-")))
+            okd, why = lib.drain_loop_check(f, e)
+            ck.ob("C13-R3", "drain-loop:" + f.base, okd, e.loc, f, why)
 
     # tail written only in pop / ctor
     for f in prog.library_funcs():
